@@ -47,7 +47,8 @@ type C14Scn struct {
 	Order   []int       `json:"order,omitempty"` // seq mode: which writer performs the next of its ops (mod number of writers)
 }
 
-var c14Details = []string{"Unit Created", "Running", "Restarting", "Finished"}
+// "" is a legitimate detail: a field set back to its zero value must be stored like any other value
+var c14Details = []string{"Unit Created", "Running", "Restarting", "Finished", ""}
 
 type c14Result struct {
 	Writer   int                        `json:"w"`
@@ -145,6 +146,17 @@ func (a *c14Actor) do(op C14Op) {
 		}
 	case "load":
 		var rec workceptor.StatusFileData
+		if a.mode == "seq" && !op.Fresh {
+			// into the writer's long-lived record, as a unit object does: what it then holds must be what is stored
+			if err := a.sfd.Load(a.file); err != nil {
+				a.res.Problems = append(a.res.Problems, fmt.Sprintf("writer %d: Load failed (partial record?): %v", a.id, err))
+			} else {
+				cp := *a.sfd
+				a.res.Rec = &cp
+			}
+			a.res.Loads++
+			break
+		}
 		if err := rec.Load(a.file); err != nil {
 			a.res.Problems = append(a.res.Problems, fmt.Sprintf("writer %d: Load failed (partial record?): %v", a.id, err))
 		} else if a.mode == "seq" {
